@@ -50,13 +50,13 @@ CLAIMS = {
         note="Trusted: forms engine; loop-direction idiom table. Partial claim.",
         ref="2/C08"),
     "C09": dict(
-        technique="step-offset tags of times and state lists at every field_eom call; linear-form comparison of the Heun update; call-graph reachability of the shared network step; must-redefine on every loop path (sign analysis of the loop variable); late-binding analysis of closures created in loops",
-        text="Decides time/state alignment of both Runge-Kutta stages (F1), the Heun form in both implementations (F2) that both back ends share one network-stepping routine (F3), and that the values carried between steps are renewed on every path of every later iteration (F4). Numerical agreement is not decided. F6: the per-system callables of a mean-field computation are not late-bound to the last system of a loop.",
+        technique="step-offset tags of times and state lists at every field_eom call; linear-form comparison of the Heun update; call-graph reachability of the shared network step; must-redefine on every loop path (sign analysis of the loop variable); late-binding analysis of closures created in loops; memo-key rule incl. caches validated by a stored key, over the mean-field front end and back end",
+        text="Decides time/state alignment of both Runge-Kutta stages (F1), the Heun form in both implementations (F2) that both back ends share one network-stepping routine (F3), and that the values carried between steps are renewed on every path of every later iteration (F4). Numerical agreement is not decided. F6: the per-system callables of a mean-field computation are not late-bound to the last system of a loop. F5 also covers the mean-field back end and caches validated by a stored key (a field value is not a time step).",
         note="Trusted: forms engine; step-tag facts listed in evidence. Partial claim.",
         ref="2/C09"),
     "C10": dict(
-        technique="import resolvability by locating and parsing the imported package; effect/ordering rule on the parallel layer; dispatch sibling agreement; value-preservation analysis of the augmented MPS constructor; guarded-cache rule over the PT-TEBD back end",
-        text="Decides that every execution mode resolves its names (I1), that a parallel layer's result is independent of completion order (I2: snapshot before submit, pure worker, ordered consumption, write-back in caller after join) that all modes reach the same worker and write-back (I3), site weights (I5), Trotter layer coverage (I6), and the count of bond matrices / traced site tensors between two recorded sites as polynomials in the site indices (I7). Exactness against dense propagation is not decided. I8: a chain state saved with get_augmented_mps() and handed back is stored as given. I9: traces cached by an early return are reset by every method that changes the chain tensors.",
+        technique="import resolvability by locating and parsing the imported package; effect/ordering rule on the parallel layer; dispatch sibling agreement; value-preservation analysis of the augmented MPS constructor; guarded-cache rule over the PT-TEBD back end; leg-role table of the PT-TEBD consumer",
+        text="Decides that every execution mode resolves its names (I1), that a parallel layer's result is independent of completion order (I2: snapshot before submit, pure worker, ordered consumption, write-back in caller after join) that all modes reach the same worker and write-back (I3), site weights (I5), Trotter layer coverage (I6), and the count of bond matrices / traced site tensors between two recorded sites as polynomials in the site indices (I7). Exactness against dense propagation is not decided. I8: a chain state saved with get_augmented_mps() and handed back is stored as given. I9: traces cached by an early return are reset by every method that changes the chain tensors. I10: PT-TEBD attaches a process tensor to a site with the leg roles every other consumer uses.",
         note="Trusted: concurrent.futures semantics table (Executor.map preserves submission order; `with` joins). Partial claim.",
         ref="2/C10"),
     "C11": dict(
@@ -70,8 +70,8 @@ CLAIMS = {
         note="Trusted: forms engine over an uninterpreted function; scipy.dblquad argument convention table. Partial claim.",
         ref="2/C12"),
     "C13": dict(
-        technique="role-typed quotient detection + rounding-idiom classification; path-conditioned slicing on record_all; polynomial forms of time labels; def-use pairing of insert indices; commit-last rule for step counters; all-or-none path rule for the parallel lists of the result containers; guarded-stepping analysis of the front ends",
-        text="Decides how floats become step counts and the form START + k*DT of every time label (G1-G4) for all front ends and steppers. G5: no step counter is advanced before a user callable of that step has returned. G6: time and value lists of Dynamics.add / MeanFieldDynamics.add are inserted together on every path and recorded times are not merged through a relative tolerance. G7: a computation stops at the requested grid point wherever it starts from (stepping depends on the current step and the target).",
+        technique="role-typed quotient detection + rounding-idiom classification; path-conditioned slicing on record_all; polynomial forms of time labels; def-use pairing of insert indices; commit-last rule for step counters; all-or-none path rule for the parallel lists of the result containers; guarded-stepping analysis of the front ends; truthiness tests of time parameters",
+        text="Decides how floats become step counts and the form START + k*DT of every time label (G1-G4) for all front ends and steppers. G5: no step counter is advanced before a user callable of that step has returned. G6: time and value lists of Dynamics.add / MeanFieldDynamics.add are inserted together on every path and recorded times are not merged through a relative tolerance. G7: a computation stops at the requested grid point wherever it starts from (stepping depends on the current step and the target). G8: no parameter with a time role is tested for truthiness.",
         note="Trusted: role vocabulary (printed in evidence); forms engine. The floating-point value of the quotient itself is covered by requiring a tolerant conversion.",
         ref="2/C13"),
     "C14": dict(
@@ -80,8 +80,8 @@ CLAIMS = {
         note="Trusted: effect tables (which attributes hold user callables - frozen with the chain that proves it). Numerical identity across the dkmax boundary not decided.",
         ref="2/C14"),
     "C15": dict(
-        technique="polynomial forms: coefficient of START in every manufactured/consumed absolute time; START plumbing by role binding; call-graph reachability of user time-dependent callables; affine typing of recorded times in the result containers (points vs differences); coefficient sums of start and end time in the sample grids of the parameter estimator",
-        text="Decides that every absolute time handed to a user callable or used as a label is START + (START-free), every float time is rounded as (t-START)/DT (U1), each front end forwards its own start time (U2), and no user time-dependent callable is reached from a site outside the table (U3). U4: the result containers never use a recorded time as a magnitude and never compare it through a relative tolerance. U5: the parameter estimator samples a time-dependent system on the window of the computation (the premise of a former exemption, now checked).",
+        technique="polynomial forms: coefficient of START in every manufactured/consumed absolute time; START plumbing by role binding; call-graph reachability of user time-dependent callables; affine typing of recorded times in the result containers (points vs differences); coefficient sums of start and end time in the sample grids of the parameter estimator; truthiness tests of time parameters",
+        text="Decides that every absolute time handed to a user callable or used as a label is START + (START-free), every float time is rounded as (t-START)/DT (U1), each front end forwards its own start time (U2), and no user time-dependent callable is reached from a site outside the table (U3). U4: the result containers never use a recorded time as a magnitude and never compare it through a relative tolerance. U5: the parameter estimator samples a time-dependent system on the window of the computation (the premise of a former exemption, now checked). U6: the time origin t = 0 takes no special branch (no truthiness test of a time parameter).",
         note="Trusted: forms engine; role vocabulary. Floating-point non-associativity not decided.",
         ref="2/C15"),
     "C16": dict(
